@@ -44,6 +44,9 @@ var twinCodes = []uint32{2001, 2003}
 const (
 	twinLeaf  = 2002 // TW-Leaf, no vendor, base
 	twinLeafV = 2004 // TW-Leaf-V, vendor 999, application
+	// one NAME for two AVPs of the application: TW-Shared is code 2005 without a vendor and code 2006 for vendor 999
+	sharedPlain    = 2005
+	sharedVendored = 2006
 )
 
 func twinName(code uint32, grouped bool) string {
@@ -53,7 +56,7 @@ func twinName(code uint32, grouped bool) string {
 	return fmt.Sprintf("TW-Scalar-%d", code)
 }
 
-func twinXML(defs [2]TwinDef) string {
+func twinXML(defs [2]TwinDef, sharedVendoredFirst bool) string {
 	var base, app string
 	for i, d := range defs {
 		code := twinCodes[i]
@@ -78,6 +81,13 @@ func twinXML(defs [2]TwinDef) string {
 			put(g, d.GroupInApp)
 		}
 	}
+	sp := fmt.Sprintf(`<avp name="TW-Shared" code="%d"><data type="Unsigned32"/></avp>`+"\n", sharedPlain)
+	sv := fmt.Sprintf(`<avp name="TW-Shared" code="%d" vendor-id="%d"><data type="Unsigned32"/></avp>`+"\n", sharedVendored, twinVendor)
+	if sharedVendoredFirst {
+		app += sv + sp
+	} else {
+		app += sp + sv
+	}
 	return fmt.Sprintf(`<?xml version="1.0" encoding="UTF-8"?>
 <diameter>
  <application id="0" name="Base">
@@ -93,20 +103,26 @@ func twinXML(defs [2]TwinDef) string {
 
 var (
 	twinMu      sync.Mutex
-	twinParsers = map[[2]TwinDef]*dict.Parser{}
+	twinParsers = map[twinKey]*dict.Parser{}
 )
 
-func twinParser(defs [2]TwinDef) (*dict.Parser, error) {
+type twinKey struct {
+	defs  [2]TwinDef
+	first bool
+}
+
+func twinParser(defs [2]TwinDef, sharedVendoredFirst bool) (*dict.Parser, error) {
 	twinMu.Lock()
 	defer twinMu.Unlock()
-	if p := twinParsers[defs]; p != nil {
+	k := twinKey{defs, sharedVendoredFirst}
+	if p := twinParsers[k]; p != nil {
 		return p, nil
 	}
-	p, err := dicts.Load(twinXML(defs))
+	p, err := dicts.Load(twinXML(defs, sharedVendoredFirst))
 	if err != nil {
 		return nil, err
 	}
-	twinParsers[defs] = p
+	twinParsers[k] = p
 	return p, nil
 }
 
@@ -120,7 +136,7 @@ type TwinNode struct {
 // TwinElem is one path element: a number (as uint32 or int) or a name.
 type TwinElem struct {
 	Code uint32 `json:"code"`
-	Form string `json:"form"` // u32 | int | group-name | scalar-name | leaf-name
+	Form string `json:"form"` // u32 | int | group-name | scalar-name | leaf-name | shared-name (TW-Shared: code 2005 for no vendor, 2006 for vendor 999)
 }
 
 type TwinQuery struct {
@@ -129,18 +145,19 @@ type TwinQuery struct {
 }
 
 type TwinCase struct {
-	Defs    [2]TwinDef  `json:"defs"`
-	Decoded bool        `json:"decoded"` // the message is serialised and read back before it is searched
-	Tree    []*TwinNode `json:"tree"`
-	Queries []TwinQuery `json:"queries"`
+	Defs                [2]TwinDef  `json:"defs"`
+	SharedVendoredFirst bool        `json:"shared_vendored_first,omitempty"` // order of the two TW-Shared definitions
+	Decoded             bool        `json:"decoded"`                         // the message is serialised and read back before it is searched
+	Tree                []*TwinNode `json:"tree"`
+	Queries             []TwinQuery `json:"queries"`
 }
 
 // vendorOf gives the vendor id the dictionary attaches to (code, grouped).
 func (c *TwinCase) vendorOf(code uint32, grouped bool) uint32 {
 	switch code {
-	case twinLeaf:
+	case twinLeaf, sharedPlain:
 		return 0
-	case twinLeafV:
+	case twinLeafV, sharedVendored:
 		return twinVendor
 	}
 	for i, tc := range twinCodes {
@@ -181,8 +198,10 @@ func (c *TwinCase) resolvable(e TwinElem, vendor uint32) bool {
 		return match(c.vendorOf(e.Code, false))
 	case "leaf-name":
 		return match(c.vendorOf(e.Code, false))
+	case "shared-name":
+		return true // defined for no vendor and for vendor 999
 	}
-	if e.Code == twinLeaf || e.Code == twinLeafV {
+	if e.Code == twinLeaf || e.Code == twinLeafV || e.Code == sharedPlain || e.Code == sharedVendored {
 		return match(c.vendorOf(e.Code, false))
 	}
 	return match(0) || match(twinVendor) // a twin code has a definition for either vendor
@@ -201,6 +220,8 @@ func (e TwinElem) arg() interface{} {
 			return "TW-Leaf-V"
 		}
 		return "TW-Leaf"
+	case "shared-name":
+		return "TW-Shared"
 	}
 	return e.Code
 }
@@ -223,9 +244,9 @@ func twinWalk(avps []*diam.AVP, path []uint32) []*diam.AVP {
 }
 
 func runTwin(c TwinCase) *ev.Failure {
-	p, err := twinParser(c.Defs)
+	p, err := twinParser(c.Defs, c.SharedVendoredFirst)
 	if err != nil {
-		return ev.Failf("harness-dict", "%v\n%s", err, twinXML(c.Defs))
+		return ev.Failf("harness-dict", "%v\n%s", err, twinXML(c.Defs, c.SharedVendoredFirst))
 	}
 	m := diam.NewMessage(301, 0x80, twinApp, 1, 2, p)
 	var seq uint32
@@ -245,14 +266,59 @@ func runTwin(c TwinCase) *ev.Failure {
 		var args []interface{}
 		var codes []uint32
 		all := true
+		sharedAnyVendor := false
 		for _, e := range q.Path {
 			args = append(args, e.arg())
-			codes = append(codes, e.Code)
+			code := e.Code
+			if e.Form == "shared-name" {
+				// the name stands for the code of the vendor asked for
+				switch q.Vendor {
+				case 0:
+					code = sharedPlain
+				case twinVendor:
+					code = sharedVendored
+				default:
+					sharedAnyVendor = true // either definition may answer: the statement does not say which
+				}
+			}
+			codes = append(codes, code)
 			all = all && c.resolvable(e, q.Vendor)
 		}
 		want := twinWalk(m.AVP, codes)
 		got, err := m.FindAVPsWithPath(args, q.Vendor)
 		desc := fmt.Sprintf("query %d: FindAVPsWithPath(%v, vendor %d)", qi, args, q.Vendor)
+		if sharedAnyVendor {
+			// accept the walk for any assignment of the two codes to the shared-name elements
+			if err != nil {
+				return ev.Failf("twin:path-differs", "%s failed: %v (the name is defined)", desc, err)
+			}
+			ok := false
+			var idx []int
+			for i, e := range q.Path {
+				if e.Form == "shared-name" {
+					idx = append(idx, i)
+				}
+			}
+			for mask := 0; mask < 1<<len(idx) && !ok; mask++ {
+				alt := append([]uint32{}, codes...)
+				for b, i := range idx {
+					alt[i] = sharedPlain
+					if mask>>b&1 == 1 {
+						alt[i] = sharedVendored
+					}
+				}
+				w := twinWalk(m.AVP, alt)
+				same := len(w) == len(got)
+				for k := 0; same && k < len(w); k++ {
+					same = w[k] == got[k]
+				}
+				ok = same
+			}
+			if !ok {
+				return ev.Failf("twin:path-differs", "%s returned %d AVPs that match the reference walk for neither code of the name", desc, len(got))
+			}
+			continue
+		}
 		if !all {
 			// an element the dictionary does not define for that vendor: an error or nothing, never another AVP
 			if err == nil {
@@ -308,7 +374,7 @@ func genTwinTree(t *rapid.T, depth int) []*TwinNode {
 	n := rapid.IntRange(1, 4).Draw(t, "n")
 	var out []*TwinNode
 	for i := 0; i < n; i++ {
-		nd := &TwinNode{Code: rapid.SampledFrom([]uint32{2001, 2001, 2003, 2003, twinLeaf, twinLeafV}).Draw(t, "code")}
+		nd := &TwinNode{Code: rapid.SampledFrom([]uint32{2001, 2001, 2003, 2003, twinLeaf, twinLeafV, sharedPlain, sharedVendored}).Draw(t, "code")}
 		if nd.Code == 2001 || nd.Code == 2003 {
 			nd.Group = rapid.IntRange(0, 3).Draw(t, "as-group") != 0
 			if nd.Group && depth < 3 {
@@ -322,7 +388,9 @@ func genTwinTree(t *rapid.T, depth int) []*TwinNode {
 
 func genTwinElem(t *rapid.T, code uint32) TwinElem {
 	e := TwinElem{Code: code}
-	if code == twinLeaf || code == twinLeafV {
+	if code == sharedPlain || code == sharedVendored {
+		e.Form = rapid.SampledFrom([]string{"u32", "int", "shared-name", "shared-name"}).Draw(t, "form")
+	} else if code == twinLeaf || code == twinLeafV {
 		e.Form = rapid.SampledFrom([]string{"u32", "int", "leaf-name"}).Draw(t, "form")
 	} else {
 		e.Form = rapid.SampledFrom([]string{"u32", "u32", "int", "int", "group-name", "scalar-name"}).Draw(t, "form")
@@ -333,7 +401,7 @@ func genTwinElem(t *rapid.T, code uint32) TwinElem {
 var twinProp = ev.Register(&ev.Prop[TwinCase]{
 	ID: "C20", Name: "twin-codes",
 	Rule: "a private dictionary defines two codes twice each, as a Grouped AVP for one vendor and as an Unsigned32 for the other (which vendor, which definition comes first and whether each sits in the application or in base are generated); " +
-		"trees of depth <= 3 hold both twins and two leaves; 1..5 path searches follow true paths of the tree (or random ones), elements given as uint32, int or by either twin's name, with vendor UndefinedVendorID / 0 / 999; built in memory or read back from the wire. " +
+		"trees of depth <= 3 hold both twins, two leaves and two AVPs that share one NAME (code 2005 without a vendor, 2006 for vendor 999; the name then stands for the code of the vendor asked for, for UndefinedVendorID for either); 1..5 path searches follow true paths of the tree (or random ones), elements given as uint32, int or by either twin's name, with vendor UndefinedVendorID / 0 / 999; built in memory or read back from the wire. " +
 		"Demanded: when the dictionary defines every element for that vendor the result is pointer-identical to a reference walk over the CODES (single-element paths also through FindAVPs / FindAVP); otherwise an error, or nothing the walk does not reach. " +
 		"non-trivial = some path of length >= 2 passes through a twin code's group",
 	Gen: func(t *rapid.T) TwinCase {
@@ -342,6 +410,7 @@ var twinProp = ev.Register(&ev.Prop[TwinCase]{
 			l := fmt.Sprintf("twin%d-", i)
 			c.Defs[i] = TwinDef{rapid.Bool().Draw(t, l+"group-vendored"), rapid.Bool().Draw(t, l+"group-first"), rapid.Bool().Draw(t, l+"group-in-app"), rapid.Bool().Draw(t, l+"scalar-in-app")}
 		}
+		c.SharedVendoredFirst = rapid.Bool().Draw(t, "shared-vendored-first")
 		c.Decoded = rapid.Bool().Draw(t, "decoded")
 		c.Tree = genTwinTree(t, 1)
 		// true paths of the tree
@@ -362,7 +431,7 @@ var twinProp = ev.Register(&ev.Prop[TwinCase]{
 				codes = rapid.SampledFrom(paths).Draw(t, "path")
 			} else {
 				for k := rapid.IntRange(1, 3).Draw(t, "len"); k > 0; k-- {
-					codes = append(codes, rapid.SampledFrom([]uint32{2001, 2003, twinLeaf, twinLeafV}).Draw(t, "code"))
+					codes = append(codes, rapid.SampledFrom([]uint32{2001, 2003, twinLeaf, twinLeafV, sharedPlain, sharedVendored}).Draw(t, "code"))
 				}
 			}
 			q := TwinQuery{Vendor: rapid.SampledFrom([]uint32{dict.UndefinedVendorID, dict.UndefinedVendorID, 0, twinVendor}).Draw(t, "vendor")}
@@ -390,6 +459,9 @@ var twinProp = ev.Register(&ev.Prop[TwinCase]{
 			all := true
 			for i, e := range q.Path {
 				all = all && c.resolvable(e, q.Vendor)
+				if e.Form == "shared-name" {
+					cl["name-shared-by-two-vendors"] = true
+				}
 				if i < len(q.Path)-1 && (e.Code == 2001 || e.Code == 2003) {
 					cl["through-twin:"+e.Form] = true
 					nontrivial = true
